@@ -1,6 +1,7 @@
 package drivers
 
 import (
+	"strings"
 	"bytes"
 	"context"
 	"fmt"
@@ -197,7 +198,7 @@ func (s *storeRun) randomOp(rng *mrand.Rand, fuseOK bool) {
 	case 12:
 		s.call("setstate", h, "", "", fmt.Sprintf("root%d", rng.Intn(3)), fuse)
 	case 13:
-		s.call("setmeta", 0, "", storeMetaKeys[rng.Intn(len(storeMetaKeys))], fmt.Sprintf("val%d", rng.Intn(4)), fuse)
+		s.call("setmeta", 0, "", storeMetaKeys[rng.Intn(len(storeMetaKeys))], []string{"", "val0", "val1", "val2", "val3", "\x00", strings.Repeat("v", 300)}[rng.Intn(7)], fuse)
 	case 14:
 		s.call("getmeta", 0, "", storeMetaKeys[rng.Intn(len(storeMetaKeys))], "", -1)
 	case 15:
